@@ -8,21 +8,33 @@ Import ListNotations.
 Open Scope Z_scope.
 
 Definition nodrop (o : list output) : Prop := forall m, ~ In (Dropped m) o.
-Definition NoNew (s s' : st) : Prop := forall r en, In en (reqs r s') -> In en (reqs r s).
+Definition NoNew (s s' : st) : Prop :=
+  (forall r en, In en (reqs r s') -> In en (reqs r s)) /\ (forall v, In v (incoming_requests s') -> In v (incoming_requests s)).
+(* no new outstanding request / responder; a discarded message leaves neither request to nor responder for its remote *)
 Definition DC (s : st) (o : list output) (s' : st) : Prop :=
-  NoNew s s' /\ forall m, In (Dropped m) o -> reqs (m_remote m) s' = [].
+  NoNew s s' /\ forall m, In (Dropped m) o -> reqs (m_remote m) s' = [] /\ served_from (m_remote m) s' = [].
+
+Lemma served_nil_incl r s1 s2 : (forall v, In v (incoming_requests s2) -> In v (incoming_requests s1)) -> served_from r s1 = [] -> served_from r s2 = [].
+Proof. intros H H1. unfold served_from in *. destruct (filter _ (incoming_requests s2)) as [|v t] eqn:E; [reflexivity|]. exfalso.
+  assert (Hi : In v (filter (fun v => v_remote v =? r) (incoming_requests s2))) by (rewrite E; left; reflexivity).
+  apply filter_In in Hi. destruct Hi as (Hi & Hr). assert (In v (filter (fun v => v_remote v =? r) (incoming_requests s1))) by (apply filter_In; auto).
+  rewrite H1 in H0. exact H0. Qed.
 
 Lemma dc_trans s o1 s1 o2 s2 : DC s o1 s1 -> DC s1 o2 s2 -> DC s (o1 ++ o2) s2.
-Proof. intros (N1 & D1) (N2 & D2). split; [intros r en H; apply N1, N2, H|].
+Proof. intros ((N1 & M1) & D1) ((N2 & M2) & D2). split; [split; [intros r en H; apply N1, N2, H|intros v H; apply M1, M2, H]|].
   intros m H. apply in_app_or in H. destruct H as [H|H]; [|apply D2; exact H].
-  specialize (D1 m H). destruct (reqs (m_remote m) s2) as [|en t] eqn:E; [reflexivity|]. exfalso.
-  assert (Hi : In en (reqs (m_remote m) s1)) by (apply N2; rewrite E; left; reflexivity). rewrite D1 in Hi. exact Hi. Qed.
+  destruct (D1 m H) as (E1 & E2). split; [|apply (served_nil_incl _ s1 s2 M2 E2)].
+  destruct (reqs (m_remote m) s2) as [|en t] eqn:E; [reflexivity|]. exfalso.
+  assert (Hi : In en (reqs (m_remote m) s1)) by (apply N2; rewrite E; left; reflexivity). rewrite E1 in Hi. exact Hi. Qed.
 
-Lemma dc_same s o s' : outgoing_requests s' = outgoing_requests s -> nodrop o -> DC s o s'.
-Proof. intros H Hn. split; [intros r en; unfold reqs; rewrite H; auto|intros m Hm; destruct (Hn m Hm)]. Qed.
+Lemma dc_same s o s' : outgoing_requests s' = outgoing_requests s -> incoming_requests s' = incoming_requests s -> nodrop o -> DC s o s'.
+Proof. intros H H2 Hn. split; [split; [intros r en; unfold reqs; rewrite H; auto|rewrite H2; auto]|intros m Hm; destruct (Hn m Hm)]. Qed.
 
-Lemma dc_filter s o s' p : outgoing_requests s' = filter p (outgoing_requests s) -> nodrop o -> DC s o s'.
-Proof. intros H Hn. split; [|intros m Hm; destruct (Hn m Hm)]. intros r en. unfold reqs. rewrite H. rewrite !filter_In. tauto. Qed.
+Lemma dc_filter s o s' p : outgoing_requests s' = filter p (outgoing_requests s) -> incoming_requests s' = incoming_requests s -> nodrop o -> DC s o s'.
+Proof. intros H H2 Hn. split; [|intros m Hm; destruct (Hn m Hm)]. split; [|rewrite H2; auto]. intros r en. unfold reqs. rewrite H. rewrite !filter_In. tauto. Qed.
+
+Lemma dc_filter_in s o s' p : outgoing_requests s' = outgoing_requests s -> incoming_requests s' = filter p (incoming_requests s) -> nodrop o -> DC s o s'.
+Proof. intros H H2 Hn. split; [|intros m Hm; destruct (Hn m Hm)]. split; [intros r en; unfold reqs; rewrite H; auto|]. intros v. rewrite H2, filter_In. tauto. Qed.
 
 Lemma nodrop_fails e l : nodrop (map (fun o : Z * Z * Z => Fail (q_of o) e) l).
 Proof. intros m H. apply in_map_iff in H. destruct H as (? & H & _). discriminate. Qed.
@@ -30,14 +42,21 @@ Lemma nodrop_nil : nodrop []. Proof. intros m H. exact H. Qed.
 Lemma nodrop_one x : (forall m, x <> Dropped m) -> nodrop [x].
 Proof. intros H m [Hx|[]]. exact (H m Hx). Qed.
 
+Lemma tm_dispatch_error_dc e r s : DC s (snd (tm_dispatch_error e r s)) (fst (tm_dispatch_error e r s)).
+Proof. destruct (tm_dispatch_error_spec e r s) as (_ & _ & _ & _ & T2 & _). split; [|intros m H; destruct (T2 m H)]. split.
+  - intros r' en. unfold tm_dispatch_error, reqs. cbn [fst outgoing_requests upd_in upd_out]. rewrite !filter_In. tauto.
+  - intros v. unfold tm_dispatch_error. cbn [fst incoming_requests upd_in upd_out]. rewrite filter_In. tauto. Qed.
+
 Lemma dispatch_error_dc r s : Forall (fun m => con_to r m = true) (backlog_of r s) ->
   DC s (snd (dispatch_error r s)) (fst (dispatch_error r s)).
-Proof. intros Hq. unfold dispatch_error, tm_dispatch_error. cbn [fst snd backlogs upd_out upd_ex upd_bl active_exchanges]. split.
-  - intros r' en. unfold reqs. cbn [outgoing_requests upd_bl upd_ex upd_out]. rewrite !filter_In. tauto.
-  - intros m H. apply in_app_or in H. destruct H as [H|H]; [destruct (nodrop_fails _ _ m H)|].
-    apply in_map_iff in H. destruct H as (m' & E & Hm). inv E. fold (backlog_of r s) in Hm.
+Proof. intros Hq. unfold dispatch_error. destruct (tm_dispatch_error_dc NetworkError r s) as (N & D).
+  destruct (tm_dispatch_error_spec NetworkError r s) as (_ & B & _ & _ & _ & _ & T4 & _ & T6). cbn zeta in *.
+  destruct (tm_dispatch_error NetworkError r s) as [s1 o1]. cbn [fst snd backlogs upd_ex upd_bl] in *. split.
+  - exact N.
+  - intros m H. apply in_app_or in H. destruct H as [H|H]; [apply D in H; exact H|].
+    apply in_map_iff in H. destruct H as (m' & E & Hm). inv E. rewrite B in Hm. fold (backlog_of r s) in Hm.
     rewrite Forall_forall in Hq. specialize (Hq m Hm). assert (m_remote m = r) by (unfold con_to in Hq; lia). subst r.
-    unfold reqs. cbn [outgoing_requests upd_bl upd_ex upd_out]. apply reqs_after_filter. Qed.
+    split; [exact T4|exact T6]. Qed.
 
 Section General.
 Variable l : list Z.
@@ -46,23 +65,29 @@ Lemma send_via_dc what r s : Inv s -> (forall m, what <> Dropped m) -> (forall m
   DC s (snd (send_via_transport l what r s)) (fst (send_via_transport l what r s)).
 Proof. intros HI Hw Hr. unfold send_via_transport. destruct (refuses l r).
   - pose proof (dispatch_error_dc r s ltac:(destruct (HI r) as (_ & _ & C); exact C)) as (N & D).
-    assert (Hc : reqs r (fst (dispatch_error r s)) = []).
-    { unfold dispatch_error, tm_dispatch_error, reqs. cbn [fst outgoing_requests upd_bl upd_ex upd_out]. apply reqs_after_filter. }
+    assert (Hc : reqs r (fst (dispatch_error r s)) = [] /\ served_from r (fst (dispatch_error r s)) = []).
+    { unfold dispatch_error. destruct (tm_dispatch_error_spec NetworkError r s) as (_ & _ & _ & _ & _ & _ & T4 & _ & T6). cbn zeta in *.
+      destruct (tm_dispatch_error NetworkError r s) as [s1 o1]. cbn [fst snd] in *. split; [exact T4|exact T6]. }
     destruct (dispatch_error r s) as [s1 o1]. cbn [fst snd] in *. split; [exact N|].
     intros m H. apply in_app_or in H. destruct H as [H|H]; [|apply D; exact H].
     destruct what; cbn in H; try contradiction. destruct retr; cbn in H; [contradiction|]. destruct H as [H|[]]. inv H.
     rewrite (Hr m eq_refl). exact Hc.
-  - cbn [fst snd]. apply dc_same; [reflexivity|apply nodrop_one; exact Hw]. Qed.
+  - cbn [fst snd]. apply dc_same; [reflexivity|reflexivity|apply nodrop_one; exact Hw]. Qed.
 
-Lemma dc_pre s0 s o s' : outgoing_requests s0 = outgoing_requests s -> DC s0 o s' -> DC s o s'.
-Proof. intros H (N & D). split; [|exact D]. intros r en Hi. specialize (N r en Hi). unfold reqs in *. rewrite <- H. exact N. Qed.
+Lemma dc_pre s0 s o s' : outgoing_requests s0 = outgoing_requests s -> incoming_requests s0 = incoming_requests s -> DC s0 o s' -> DC s o s'.
+Proof. intros H H2 ((N & M) & D). split; [|exact D]. split; [|rewrite <- H2; exact M].
+  intros r en Hi. specialize (N r en Hi). unfold reqs in *. rewrite <- H. exact N. Qed.
+
+Lemma add_exchange_in m s : incoming_requests (add_exchange m s) = incoming_requests s.
+Proof. unfold add_exchange, random_uniform, schedule_retransmit, upd_ex, upd_bl.
+  destruct (in_backlogs (m_remote m) s); destruct (rand s); reflexivity. Qed.
 
 Lemma send_initially_dc m s :
   (m_mtype m = 0 /\ exs (m_remote m) s = [] /\ Forall (fun m' => con_to (m_remote m) m' = true) (backlog_of (m_remote m) s) /\
    (forall r, r <> m_remote m -> Good s r)) \/ (m_mtype m <> 0 /\ Inv s) ->
   DC s (snd (C14refuse.send_initially l m s)) (fst (C14refuse.send_initially l m s)).
 Proof. intros H. unfold C14refuse.send_initially. destruct H as [(Hc & Hz & Hq & HI)|(Hc & HI)].
-  - replace (m_mtype m =? 0) with true by lia. apply (dc_pre (add_exchange m s)); [apply add_exchange_out|].
+  - replace (m_mtype m =? 0) with true by lia. apply (dc_pre (add_exchange m s)); [apply add_exchange_out|apply add_exchange_in|].
     apply send_via_dc; [apply add_exchange_good; assumption|discriminate|intros m' E; inv E; reflexivity].
   - replace (m_mtype m =? 0) with false by lia. apply send_via_dc; [exact HI|discriminate|intros m' E; inv E; reflexivity]. Qed.
 
@@ -71,7 +96,7 @@ Lemma continue_backlog_dc r s q : exs r s = [] -> aget r (backlogs s) = Some q -
   DC s (snd (C14refuse.continue_backlog l r s)) (fst (C14refuse.continue_backlog l r s)).
 Proof. intros Hz Ha Hq HI. unfold C14refuse.continue_backlog. rewrite Ha. cbn [C14refuse.continue_backlog_loop].
   rewrite has_exchange_exs. unfold count_r. rewrite Hz, Ha. cbn [length Nat.eqb negb].
-  destruct q as [|m q']; [cbn [fst snd]; apply dc_same; [reflexivity|apply nodrop_nil]|].
+  destruct q as [|m q']; [cbn [fst snd]; apply dc_same; [reflexivity|reflexivity|apply nodrop_nil]|].
   inv Hq. assert (Hr : m_remote m = r) by (unfold con_to in H1; lia).
   set (s0 := upd_bl s (aset r q' (backlogs s))).
   assert (Hb0 : backlog_of r s0 = q') by (unfold backlog_of, s0; cbn [backlogs upd_bl]; rewrite aget_aset_same; reflexivity).
@@ -83,16 +108,21 @@ Proof. intros Hz Ha Hq HI. unfold C14refuse.continue_backlog. rewrite Ha. cbn [C
   destruct Pre as (P1 & P2 & P3 & P4). pose proof (send_initially_con l m s0 P1 P2 P3 P4) as (A & _).
   destruct (C14refuse.send_initially l m s0) as [s1 o1]. cbn [fst snd] in *.
   cbn [length]. rewrite (loop_stops l (length q') r s1 A). cbn [fst snd]. rewrite app_nil_r.
-  apply (dc_pre s0); [reflexivity|exact D]. Qed.
+  apply (dc_pre s0); [reflexivity|reflexivity|exact D]. Qed.
+
+Lemma stop_responder_dc k s : DC s (snd (stop_responder k s)) (fst (stop_responder k s)).
+Proof. unfold stop_responder. destruct (alive k s); cbn [fst snd];
+  [eapply dc_filter_in; [reflexivity|reflexivity|apply nodrop_one; discriminate]|apply dc_same; [reflexivity|reflexivity|apply nodrop_nil]]. Qed.
 
 Lemma call_monitor_dc m s : DC s (snd (call_monitor m s)) (fst (call_monitor m s)).
 Proof. unfold call_monitor. destruct (m_sub m).
-  - destruct (existsb _ _); cbn [fst snd]; [eapply dc_filter; [reflexivity|apply nodrop_one; discriminate]|apply dc_same; [reflexivity|apply nodrop_nil]].
-  - cbn [fst snd]. apply dc_same; [reflexivity|apply nodrop_one; discriminate]. Qed.
+  - destruct (existsb _ _); cbn [fst snd]; [eapply dc_filter; [reflexivity|reflexivity|apply nodrop_one; discriminate]|apply dc_same; [reflexivity|reflexivity|apply nodrop_nil]].
+  - cbn [fst snd]. apply dc_same; [reflexivity|reflexivity|apply nodrop_one; discriminate].
+  - apply stop_responder_dc. Qed.
 
 Lemma remove_exchange_dc r mid mt s : Inv s ->
   DC s (snd (C14refuse.remove_exchange l r mid mt s)) (fst (C14refuse.remove_exchange l r mid mt s)).
-Proof. intros HI. unfold C14refuse.remove_exchange. destruct (xget r mid (active_exchanges s)) as [x|] eqn:Ex; [|apply dc_same; [reflexivity|apply nodrop_nil]].
+Proof. intros HI. unfold C14refuse.remove_exchange. destruct (xget r mid (active_exchanges s)) as [x|] eqn:Ex; [|apply dc_same; [reflexivity|reflexivity|apply nodrop_nil]].
   destruct (xget_some _ _ _ _ Ex) as (Hin & Hr & Hm).
   set (s1 := upd_ex s (xdel r mid (active_exchanges s))).
   destruct (inv_count_aget s r HI) as [[Hc _]|(x0 & q & Hx & Ha & Hq)].
@@ -102,7 +132,7 @@ Proof. intros HI. unfold C14refuse.remove_exchange. destruct (xget r mid (active
   set (mon := if mt =? 3 then call_monitor (x_msg x) s1 else (s1, [])).
   assert (Hmon : active_exchanges (fst mon) = active_exchanges s1 /\ backlogs (fst mon) = backlogs s1 /\ DC s1 (snd mon) (fst mon)).
   { unfold mon. destruct (mt =? 3); [destruct (call_monitor_frame (x_msg x) s1) as (A & B & _); split; [exact A|split; [exact B|apply call_monitor_dc]]|
-      cbn; split; [reflexivity|split; [reflexivity|apply dc_same; [reflexivity|apply nodrop_nil]]]]. }
+      cbn; split; [reflexivity|split; [reflexivity|apply dc_same; [reflexivity|reflexivity|apply nodrop_nil]]]]. }
   destruct mon as [s2 o2]. cbn [fst snd] in Hmon. destruct Hmon as (He2 & Hb2 & D2).
   assert (Hz2 : exs r s2 = []) by (unfold exs; rewrite He2; exact Hz1).
   assert (Ha2 : aget r (backlogs s2) = Some q) by (rewrite Hb2; exact Ha).
@@ -112,7 +142,7 @@ Proof. intros HI. unfold C14refuse.remove_exchange. destruct (xget r mid (active
     - rewrite Hb2. reflexivity.
     - apply HI. }
   destruct (C14refuse.continue_backlog l r s2) as [s3 o3]. cbn [fst snd] in *.
-  apply (dc_pre s1); [reflexivity|]. apply (dc_trans s1 o2 s2); assumption. Qed.
+  apply (dc_pre s1); [reflexivity|reflexivity|]. apply (dc_trans s1 o2 s2); assumption. Qed.
 
 Lemma retransmit_dc x s : Inv s -> In x (active_exchanges s) ->
   DC s (snd (C14refuse.retransmit l x s)) (fst (C14refuse.retransmit l x s)).
@@ -133,22 +163,25 @@ Proof. intros HI Hin. unfold C14refuse.retransmit.
         destruct (filter (to_remote r) (xdel r (m_mid m) (xdel r (m_mid m) (active_exchanges s)))); [reflexivity|cbn in Hle; lia].
       - intros r' Hne. unfold exs, s1. cbn [active_exchanges upd_ex filter x_msg]. unfold to_remote at 1. cbn [x_msg]. fold m. fold r.
         replace (r =? r') with false by lia. rewrite !filter_xdel_other by assumption. reflexivity. }
-    apply (dc_pre s1); [reflexivity|]. apply send_via_dc; [exact HI1|discriminate|discriminate].
-  - cbn [backlogs upd_ex]. rewrite Ha. unfold tm_dispatch_error. cbn [fst snd]. split.
-    + intros r' en. unfold reqs. cbn [outgoing_requests upd_bl upd_ex upd_out]. rewrite !filter_In. tauto.
-    + intros m' H. apply in_app_or in H. destruct H as [H|H]; [|destruct (nodrop_fails _ _ m' H)].
+    apply (dc_pre s1); [reflexivity|reflexivity|]. apply send_via_dc; [exact HI1|discriminate|discriminate].
+  - cbn [backlogs upd_ex]. rewrite Ha.
+    match goal with |- context [tm_dispatch_error ?e ?rr ?ss] => destruct (tm_dispatch_error_dc e rr ss) as (N & D);
+      destruct (tm_dispatch_error_spec e rr ss) as (_ & _ & _ & _ & _ & _ & T4 & _ & T6); destruct (tm_dispatch_error e rr ss) as [s2 o2] end.
+    cbn zeta in *. cbn [fst snd] in *. split.
+    + exact N.
+    + intros m' H. apply in_app_or in H. destruct H as [H|H]; [|apply D in H; exact H].
       apply in_map_iff in H. destruct H as (m2 & E & Hm). inv E.
       rewrite Forall_forall in Hq. specialize (Hq m' Hm). assert (m_remote m' = r) by (unfold con_to in Hq; lia).
-      unfold reqs. cbn [outgoing_requests upd_bl upd_ex upd_out]. rewrite H. apply reqs_after_filter. Qed.
+      rewrite H. split; [exact T4|exact T6]. Qed.
 
 Lemma send_message_dc who r mt code tok maxre s : Inv s ->
   DC s (snd (C14refuse.send_message l who r mt code tok maxre s)) (fst (C14refuse.send_message l who r mt code tok maxre s)).
 Proof. intros HI. unfold C14refuse.send_message, next_message_id.
   set (s0 := {| now := now s; seq := seq s; message_id := Z.land 65535 (1 + message_id s); token := token s; rand := rand s;
-                active_exchanges := active_exchanges s; backlogs := backlogs s; outgoing_requests := outgoing_requests s |}).
+                active_exchanges := active_exchanges s; backlogs := backlogs s; outgoing_requests := outgoing_requests s; incoming_requests := incoming_requests s |}).
   set (m := {| m_sub := who; m_remote := r; m_mtype := resolve_mtype mt; m_code := code; m_mid := message_id s; m_tok := tok; m_maxre := maxre |}).
   assert (HI0 : Inv s0) by (apply (inv_ext s); [reflexivity|reflexivity|exact HI]).
-  apply (dc_pre s0); [reflexivity|]. cbn [m_mtype m]. unfold in_backlogs.
+  apply (dc_pre s0); [reflexivity|reflexivity|]. cbn [m_mtype m]. unfold in_backlogs.
   assert (Fin : DC s0 (snd (C14refuse.send_initially l m s0)) (fst (C14refuse.send_initially l m s0)) ->
                 DC s0 (Submitted m :: snd (C14refuse.send_initially l m s0)) (fst (C14refuse.send_initially l m s0))).
   { intros (N & D). split; [exact N|]. intros m' [H|H]; [discriminate|apply D; exact H]. }
@@ -161,7 +194,7 @@ Proof. intros HI. unfold C14refuse.send_message, next_message_id.
     destruct (C14refuse.send_initially l m s0) as [s1 o1]. exact T.
   - rewrite andb_true_r. destruct (resolve_mtype mt =? 0) eqn:Ec.
     + rewrite has_exchange_exs. unfold count_r. rewrite Hx. cbn [length Nat.eqb negb fst snd].
-      apply dc_same; [reflexivity|apply nodrop_one; discriminate].
+      apply dc_same; [reflexivity|reflexivity|apply nodrop_one; discriminate].
     + assert (T : DC s0 (Submitted m :: snd (C14refuse.send_initially l m s0)) (fst (C14refuse.send_initially l m s0))).
       { apply Fin, send_initially_dc. right. split; [cbn; lia|exact HI0]. }
       destruct (C14refuse.send_initially l m s0) as [s1 o1]. exact T. Qed.
@@ -173,7 +206,7 @@ Proof. intros HI. unfold C14refuse.dispatch_message.
   assert (T1 : Trans s (snd first) (fst first)).
   { unfold first. destruct ((mt =? 2) || (mt =? 3)); [apply remove_exchange_gen; exact HI|apply trans_refl; exact HI]. }
   assert (D1 : DC s (snd first) (fst first)).
-  { unfold first. destruct ((mt =? 2) || (mt =? 3)); [apply remove_exchange_dc; exact HI|apply dc_same; [reflexivity|apply nodrop_nil]]. }
+  { unfold first. destruct ((mt =? 2) || (mt =? 3)); [apply remove_exchange_dc; exact HI|apply dc_same; [reflexivity|reflexivity|apply nodrop_nil]]. }
   destruct first as [s1 o1]. cbn [fst snd] in T1, D1.
   assert (Hn : crashed o1 = false) by (rewrite crashed_nocrash; destruct T1 as (_ & _ & ->); reflexivity). rewrite Hn.
   pose proof (proj1 T1) as HI1.
@@ -185,7 +218,7 @@ Proof. intros HI. unfold C14refuse.dispatch_message.
   - destruct (mt =? 3); [exact D1|].
     pose proof (tm_process_response_frame r tok s1) as (He & Hb & Hnn).
     assert (D2 : DC s1 (snd (fst (tm_process_response r tok s1))) (fst (fst (tm_process_response r tok s1)))).
-    { unfold tm_process_response. destruct (find _ _); cbn [fst snd]; [eapply dc_filter; [reflexivity|apply nodrop_one; discriminate]|apply dc_same; [reflexivity|apply nodrop_nil]]. }
+    { unfold tm_process_response. destruct (find _ _); cbn [fst snd]; [eapply dc_filter; [reflexivity|reflexivity|apply nodrop_one; discriminate]|apply dc_same; [reflexivity|reflexivity|apply nodrop_nil]]. }
     destruct (tm_process_response r tok s1) as [[s2 o2] ok]. cbn [fst snd] in *.
     assert (HI2 : Inv s2) by (apply (inv_ext s1); assumption).
     assert (D12 : DC s (o1 ++ o2) s2) by (apply (dc_trans s o1 s1); assumption).
@@ -195,29 +228,48 @@ Proof. intros HI. unfold C14refuse.dispatch_message.
     + pose proof (SE 3 s2 HI2) as D3. destruct (C14refuse.send_empty l r 3 mid s2) as [s3 o3].
       rewrite app_assoc. apply (dc_trans s (o1 ++ o2) s2); assumption. Qed.
 
-(* one event, whatever the transport refuses: a message is discarded only if afterwards no request to its remote is
-   outstanding; and only TokenManager.request adds an outstanding request *)
+Lemma respond_dc j k last maxre s : Inv s ->
+  DC s (snd (respond (C14refuse.send_message l) j k last maxre s)) (fst (respond (C14refuse.send_message l) j k last maxre s)).
+Proof. intros HI. unfold respond. destruct (find _ _) as [v|]; [|apply dc_same; [reflexivity|reflexivity|apply nodrop_nil]].
+  pose proof (send_message_dc (Resp j k) (v_remote v) (if v_mtype v =? 1 then 7 else 8) 69 (v_tok v) maxre s HI) as D.
+  destruct (C14refuse.send_message l _ _ _ _ _ _ s) as [s1 o1]. cbn [fst snd] in D.
+  destruct last; destruct (alive k s1) eqn:E; cbn [fst snd]; try exact D.
+  - pose proof (stop_responder_dc k s1) as D2. destruct (stop_responder k s1) as [s2 o2]. apply (dc_trans s o1 s1); assumption.
+  - apply (dc_trans s o1 s1 [Crash TypeError] s1); [exact D|apply dc_same; [reflexivity|reflexivity|apply nodrop_one; discriminate]]. Qed.
+
+(* one event, whatever the transport refuses: a message is discarded only if afterwards neither a request to its remote is
+   outstanding nor a responder for its remote alive; only TokenManager.request adds an outstanding request, only
+   process_request adds a responder *)
+Definition Clears (o : list output) (s' : st) : Prop :=
+  forall m, In (Dropped m) o -> reqs (m_remote m) s' = [] /\ served_from (m_remote m) s' = [].
+
 Theorem step_ev_drop_clears s e : Inv s ->
-  (forall m, In (Dropped m) (snd (step_ev l s e)) -> reqs (m_remote m) (fst (step_ev l s e)) = []) /\
-  ((forall q r mt maxre, e <> Request q r mt maxre) -> NoNew s (fst (step_ev l s e))).
-Proof. intros HI. destruct e; cbn [step_ev].
-  - split; [|intros H; exfalso; apply (H q r mt maxre); reflexivity].
-    unfold C14refuse.tm_request, next_token. cbn -[C14refuse.send_message Z.pow Z.modulo].
+  Clears (snd (step_ev l s e)) (fst (step_ev l s e)) /\
+  ((forall q r mt maxre, e <> Request q r mt maxre) -> forall r en, In en (reqs r (fst (step_ev l s e))) -> In en (reqs r s)) /\
+  ((forall k r tok mt, e <> Serve k r tok mt) -> forall v, In v (incoming_requests (fst (step_ev l s e))) -> In v (incoming_requests s)).
+Proof. intros HI.
+  assert (From : forall o s', DC s o s' -> Clears o s' /\ (forall r en, In en (reqs r s') -> In en (reqs r s)) /\ (forall v, In v (incoming_requests s') -> In v (incoming_requests s)))
+    by (intros o s' ((N & M) & D); auto).
+  destruct e; cbn [step_ev].
+  - unfold C14refuse.tm_request, next_token. cbn -[C14refuse.send_message Z.pow Z.modulo].
     match goal with |- context [C14refuse.send_message l ?a ?b ?c ?d ?e ?f ?s1] =>
-      destruct (send_message_dc a b c d e f s1) as (_ & D); [apply (inv_ext s); [reflexivity|reflexivity|exact HI]|exact D] end.
-  - destruct (send_message_dc (Raw k) r mt 69 tok maxre s HI) as (N & D). auto.
-  - destruct (dispatch_message_dc r mtype 0 mid 0 s HI) as (N & D). auto.
-  - destruct (dispatch_message_dc r mtype 69 mid tok s HI) as (N & D). auto.
-  - cbn [step]. destruct (dispatch_error_dc r s ltac:(destruct (HI r) as (_ & _ & C); exact C)) as (N & D). auto.
+      destruct (send_message_dc a b c d e f s1) as ((N & M) & D); [apply (inv_ext s); [reflexivity|reflexivity|exact HI]|] end.
+    split; [exact D|]. split; [intros H; exfalso; apply (H q r mt maxre); reflexivity|intros _; exact M].
+  - destruct (From _ _ (send_message_dc (Raw k) r mt 69 tok maxre s HI)) as (A & B & C). auto.
+  - destruct (From _ _ (dispatch_message_dc r mtype 0 mid 0 s HI)) as (A & B & C). auto.
+  - destruct (From _ _ (dispatch_message_dc r mtype 69 mid tok s HI)) as (A & B & C). auto.
+  - cbn [step]. destruct (From _ _ (dispatch_error_dc r s ltac:(destruct (HI r) as (_ & _ & C); exact C))) as (A & B & C). auto.
   - unfold C14refuse.fire. destruct (min_timer (active_exchanges s)) as [x|] eqn:E; cbn [fst snd].
     + set (s0 := upd_now s (Z.max (now s) (x_due x))).
-      destruct (retransmit_dc x s0) as (N & D); [apply (inv_ext s); [reflexivity|reflexivity|exact HI]|apply min_timer_in; exact E|].
-      destruct (C14refuse.retransmit l x s0) as [s1 o1]. cbn [fst snd] in *. split; [|intros _; exact N].
+      destruct (retransmit_dc x s0) as ((N & M) & D); [apply (inv_ext s); [reflexivity|reflexivity|exact HI]|apply min_timer_in; exact E|].
+      destruct (C14refuse.retransmit l x s0) as [s1 o1]. cbn [fst snd] in *. split; [|split; [intros _; exact N|intros _; exact M]].
       intros m [H|H]; [discriminate|apply D; exact H].
-    + split; [intros m []|intros _ r en H; exact H].
-  - cbn [step fst snd]. split; [intros m []|]. intros _ r en. unfold reqs, advance. destruct (d <? 0); [auto|].
+    + split; [intros m []|auto].
+  - cbn [step fst snd]. split; [intros m []|]. unfold reqs, advance. destruct (d <? 0); [auto|].
     destruct (min_timer _) as [x|]; [destruct (x_due x <=? now s + d)|]; auto.
-  - cbn [step]. destruct (outstanding q s); cbn [fst snd]; (split; [intros m H; try destruct H as [H|[]]; try discriminate; destruct H|]).
-    + intros _ r en. unfold reqs, forget_request. cbn [outgoing_requests upd_out]. rewrite !filter_In. tauto.
-    + intros _ r en H. exact H. Qed.
+  - cbn [step]. destruct (outstanding q s); cbn [fst snd]; (split; [intros m H; try destruct H as [H|[]]; try discriminate; destruct H|]); [|auto].
+    split; [|auto]. intros _ r en. unfold reqs, forget_request. cbn [outgoing_requests upd_out]. rewrite !filter_In. tauto.
+  - cbn [step]. unfold tm_process_request. cbn [fst snd]. split; [intros m H; apply in_map_iff in H; destruct H as (? & H & _); discriminate|].
+    split; [intros _ r0 en H; exact H|intros H; exfalso; apply (H k r tok mt); reflexivity].
+  - destruct (From _ _ (respond_dc j k last maxre s HI)) as (A & B & C). auto. Qed.
 End General.
